@@ -230,6 +230,7 @@ LS_TAGS = {"KPi00": ["FOCUS.Kpi", "FOCUS.I32", "FOCUS.KEta"], "KPi10": ["FOCUS.K
            "PiPi00": ["kMatrix.pole.1", "kMatrix.prod.0"], "PiPi10": ["kMatrix.pole.1", "kMatrix.prod.0"], "PiPi20": ["kMatrix.pole.0", "kMatrix.prod.0"]}
 
 NUMS = ["1", "0", "0.5", "1.25", "-0.271637", "2.01551", "0.0205762", "3.01374", "-2.96395", "1e-3", "2E-1", ".5", "+0.75"]
+BIG_NUMS = ["1433.0", "2400", "-1940.8", "1e4", "12345.678"]
 
 
 def two_body(rng, name, tag=True):
@@ -241,8 +242,10 @@ def two_body(rng, name, tag=True):
 
 
 def coupling(rng):
-    f1, f2 = rng.choice([(2, 2), (0, 0), (0, 0), (2, 0), (0, 2), (1, 1)])
-    return [str(f1), rng.choice(NUMS), rng.choice(NUMS[:6]), str(f2), rng.choice(NUMS), rng.choice(NUMS[:6])]
+    f1, f2 = rng.choice([(2, 2), (0, 0), (0, 0), (2, 0), (0, 2), (1, 1), (-1, -1), (3, 0), (2, -2), (-1, 2)])
+    # now and then a coupling far from order one (a magnitude, or real and imaginary parts, in the thousands)
+    v1 = rng.choice(BIG_NUMS) if rng.random() < 0.06 else rng.choice(NUMS)
+    return [str(f1), v1, rng.choice(NUMS[:6]), str(f2), rng.choice(NUMS), rng.choice(NUMS[:6])]
 
 
 def gen_amp_doc(rng: random.Random, n_lines=None, partial=True, cartesian=None, params=True, min_alts=0):
@@ -309,7 +312,7 @@ def gen_amp_doc(rng: random.Random, n_lines=None, partial=True, cartesian=None, 
     if params:
         for _ in range(rng.randint(0, 4)):
             doc.append(["variable", rng.choice(["D0_radius", "IS_p1_4pi", "sA", "s0_prod", "f_scatt1", "K(1)(1270)bar-_mass", "x::y"]),
-                        rng.choice(["0", "2", "1"]), rng.choice(NUMS), rng.choice(NUMS[:6])])
+                        rng.choice(["0", "2", "1", "-1", "3", "-2"]), rng.choice(NUMS), rng.choice(NUMS[:6])])
         for _ in range(rng.randint(0, 3)):
             doc.append(["constant", rng.choice(["a(1)(1260)+::Spline::Min", "K(1460)bar-::Spline::N", "Foo::Bar", "xx"]), rng.choice(NUMS)])
     head, rest = doc[:1], doc[1:]
